@@ -133,7 +133,7 @@ fn main() -> Result<()> {
             }
             continue;
           }
-          "reorg" | "proto" | "sched" | "crash" | "kill" => {
+          "reorg" | "proto" | "sched" | "crash" | "kill" | "reinscribe" => {
             let p = r#gen::ProtoCfg {
               ci: arg_value(&args, "--ci").map(|s| s.parse().unwrap()).unwrap_or(5000),
               si: arg_value(&args, "--si").map(|s| s.parse().unwrap()).unwrap_or(10),
@@ -155,6 +155,10 @@ fn main() -> Result<()> {
                 let more: usize = arg_value(&args, "--more").map(|s| s.parse().unwrap()).unwrap_or(5);
                 let fd: usize = arg_value(&args, "--fork-depth").map(|s| s.parse().unwrap()).unwrap_or(0);
                 r#gen::crash_case(seed + i, &tag, &p, &point, occ, pre, more, fd)
+              }
+              "reinscribe" => {
+                let shape = ["pushnum", "stutter", "dup"][(i % 3) as usize];
+                r#gen::reinscribe_cursed_case(&format!("{tag}{shape}"), &p, args.iter().any(|a| a == "--split"), shape)
               }
               "kill" => {
                 let pre: usize = arg_value(&args, "--pre").map(|s| s.parse().unwrap()).unwrap_or(3);
